@@ -579,6 +579,8 @@ func registerIntrinsics(e *Engine) {
 	in["syscall.runtime_exitsyscall"] = in["syscall.runtime_entersyscall"]
 	in["os.runtime_beforeExit"] = in["syscall.runtime_entersyscall"]
 	in["os.checkClonePidfd"] = func(e *Engine, a []Value, c *callCtx) Value { return Value{} }
+	in["os.Getpid"] = func(e *Engine, a []Value, c *callCtx) Value { return intV(4242) }
+	in["syscall.Getpid"] = in["os.Getpid"]
 	in["os.Getenv"] = func(e *Engine, a []Value, c *callCtx) Value { return strV("") }
 	in["os.runtime_args"] = func(e *Engine, a []Value, c *callCtx) Value { return Value{} }
 	in["syscall.runtime_envs"] = func(e *Engine, a []Value, c *callCtx) Value { return Value{} }
